@@ -20,7 +20,13 @@ class BudgetExceeded(BaseException):
     ``except Exception`` in the code under test cannot swallow it)."""
 
 
+class ShardAbort(BaseException):
+    """A previous call in this shard blocked for ever (detected by the stall watchdog): whatever it waited for is still held, every
+    further call would block as well, so the shard ends here (the violation is already recorded; the run is marked as capped)."""
+
+
 class _State:
+    poisoned = False
     prefix = ""
     count = 0
     limit = 0
@@ -78,8 +84,40 @@ def install_kdf_counter() -> None:
     S.kdf_installed = True
 
 
+STALL_TICK = 10.0  # seconds; two consecutive ticks without a single dpapi_ng line event = the call is blocked (e.g. on a lock)
+_stall = {"last": -1, "ticks": 0, "installed": False}
+
+
+def _on_alarm(signum, frame):  # noqa: ANN001
+    if not S.active:
+        return
+    if S.count == _stall["last"]:
+        _stall["ticks"] += 1
+        if _stall["ticks"] >= 2:
+            S.poisoned = True
+            raise BudgetExceeded(f"blocked: no dpapi_ng line executed for {2 * STALL_TICK:.0f} s of wall-clock time (waiting on a lock / a read that never returns)")
+    else:
+        _stall["last"], _stall["ticks"] = S.count, 0
+
+
+def _arm_stall_watchdog() -> bool:
+    import signal
+    import threading
+
+    if threading.current_thread() is not threading.main_thread():
+        return False
+    if not _stall["installed"]:
+        signal.signal(signal.SIGALRM, _on_alarm)
+        _stall["installed"] = True
+    _stall["last"], _stall["ticks"] = -1, 0
+    signal.setitimer(signal.ITIMER_REAL, STALL_TICK, STALL_TICK)
+    return True
+
+
 def run(limit: int, fn: t.Callable[..., t.Any], *args: t.Any, kdf_limit: int = 0, **kw: t.Any) -> t.Tuple[t.Any, int, int]:
     """Run fn under the budget. Returns (result, steps, kdf_calls); BudgetExceeded propagates."""
+    if S.poisoned:
+        raise ShardAbort("an earlier call of this shard blocked for ever")
     install()
     if kdf_limit:
         install_kdf_counter()
@@ -88,11 +126,16 @@ def run(limit: int, fn: t.Callable[..., t.Any], *args: t.Any, kdf_limit: int = 0
     S.kdf_calls = 0
     S.kdf_limit = kdf_limit
     S.active = True
+    armed = _arm_stall_watchdog()
     try:
         res = fn(*args, **kw)
     finally:
         S.active = False
         S.kdf_limit = 0
+        if armed:
+            import signal
+
+            signal.setitimer(signal.ITIMER_REAL, 0)
     return res, S.count, S.kdf_calls
 
 
